@@ -206,6 +206,11 @@ pub fn vec_empty<T>() -> (r: Vec<T>) ensures r@ == Seq::<T>::empty() { Vec::new(
 pub open spec fn sel<T>(v: Seq<T>, b: Seq<bool>, n: int) -> Seq<T> decreases n {
     if n <= 0 { Seq::empty() } else if b[n - 1] { sel(v, b, n - 1).push(v[n - 1]) } else { sel(v, b, n - 1) }
 }
+pub proof fn lemma_sel_ext<T>(v: Seq<T>, a: Seq<bool>, b: Seq<bool>, n: int)
+    requires 0 <= n <= a.len(), n <= b.len(), forall|i: int| 0 <= i < n ==> a[i] == b[i]
+    ensures sel(v, a, n) == sel(v, b, n)
+    decreases n
+{ if n > 0 { lemma_sel_ext(v, a, b, n - 1); } }
 // `.filter(C)`: the items on which the closure answered true, in order (the closure sees a reference to the item)
 #[verifier::external_body]
 pub fn vec_filter<T, F: Fn(&T) -> bool>(v: Vec<T>, f: F) -> (r: Vec<T>)
@@ -254,3 +259,17 @@ pub fn opt_ref_map_or_new<T, F: Fn(&T) -> BTreeSet<u64>>(o: &Option<T>, f: F) ->
     requires o is Some ==> f.requires((&o->Some_0,))
     ensures o is Some ==> f.ensures((&o->Some_0,), r), o is None ==> r@ =~= Set::<u64>::empty()
 { o.as_ref().map_or_else(BTreeSet::new, f) }
+// `.collect::<Vec<_>>()` at the end of a pipeline that is already a Vec (R31): the identity
+pub fn vec_collect<T>(v: Vec<T>) -> (r: Vec<T>) ensures r == v { v }
+// `(lo..hi).map(C)` over u64 (R31)
+#[verifier::external_body]
+pub fn range_map_collect_u64<U, F: Fn(u64) -> U>(lo: u64, hi: u64, f: F) -> (r: Vec<U>)
+    requires forall|i: u64| lo <= i < hi ==> f.requires((i,))
+    ensures r.len() == (if hi >= lo { hi - lo } else { 0 }), forall|i: int| 0 <= i < r.len() ==> f.ensures(((lo + i) as u64,), #[trigger] r[i])
+{ (lo..hi).map(f).collect() }
+// `Vec::retain(C)`: the items on which the closure answered true, in order
+#[verifier::external_body]
+pub fn vec_retain<T, F: Fn(&T) -> bool>(v: &mut Vec<T>, f: F)
+    requires forall|i: int| 0 <= i < old(v).len() ==> f.requires((&#[trigger] old(v)[i],))
+    ensures exists|b: Seq<bool>| b.len() == old(v).len() && (forall|i: int| 0 <= i < old(v).len() ==> f.ensures((&old(v)[i],), #[trigger] b[i])) && final(v)@ == sel(old(v)@, b, old(v).len() as int)
+{ v.retain(f) }
